@@ -22,7 +22,7 @@ import (
 func init() {
 	h.Register(&h.Prop{
 		ID:   "C05",
-		Rule: "adv: n in 3..5, one Byzantine member; fault catalogue (bad share, equivocating commitments with and without cross-wired session ids, T in {0,1,n+1,2^32-1} bound/unbound, self-consistent deals of threshold 0,1,2,n+1,2n (exactly T commitments, fitting share and session id), wrong index (small, out of range, equal to the own index modulo 2^32), other-length commitments, missing share/value, raw session id, junk / missing / redirected / previous-session deal, slot pre-emption under an honest or out-of-range index; forged PublicKey messages (another member's / the own / an out-of-range index, outsider as sender, the adversary's own key twice, SenderId field pre-filled with the claimed member's / the victim's / the forger's id or garbage; before the starts, after the starts, immediately before the genuine key), three Byzantine seats sharing one key with re-labelled approvals; response with bad / missing / foreign signature, foreign or previous session id, complaint about an honest dealer or about the recipient's own deal, relabelled or previous-session genuine response, missing response, out-of-range responder) injected at every position of the honest delivery sequence (all in thorough and for n=3,4 in quick; sampled for n=5 in quick), pairs of faults in thorough (n = 3: every pair sampled 1/8 per seed, n = 4, 5: 500 / 300 random pairs); non-trivial = every case (each has at least one adversarial message); distinct = distinct case line",
+		Rule: "libadv (LIBRARY level: real DistKeyGenerators driven directly by ProcessDeal / ProcessResponse / ProcessJustification, observed at Certified()/QUAL()/DistKeyShare() of every honest member): n in 3..5, Byzantine seat dealing one consistent polynomial to everybody except a victim that gets one of 29 deal deviations, followed by no / a valid / an invalid / a foreign-index / another-polynomial justification; the deviation to everybody; equivocation; forged, unsigned, mis-signed, out-of-range, missing, duplicated responses and complaints about an honest dealer with the dealer's justification delivered to nobody / everybody; pairs; orders canonical, responses before deals, seeded shuffles, everything twice (all in thorough, n = 4, 5 sampled in quick); adv: n in 3..5, one Byzantine member; fault catalogue (bad share, equivocating commitments with and without cross-wired session ids, T in {0,1,n+1,2^32-1} bound/unbound, self-consistent deals of threshold 0,1,2,n+1,2n (exactly T commitments, fitting share and session id), wrong index (small, out of range, equal to the own index modulo 2^32), other-length commitments, missing share/value, raw session id, junk / missing / redirected / previous-session deal, slot pre-emption under an honest or out-of-range index; forged PublicKey messages (another member's / the own / an out-of-range index, outsider as sender, the adversary's own key twice, SenderId field pre-filled with the claimed member's / the victim's / the forger's id or garbage; before the starts, after the starts, immediately before the genuine key), three Byzantine seats sharing one key with re-labelled approvals; response with bad / missing / foreign signature, foreign or previous session id, complaint about an honest dealer or about the recipient's own deal, relabelled or previous-session genuine response, missing response, out-of-range responder) injected at every position of the honest delivery sequence (all in thorough and for n=3,4 in quick; sampled for n=5 in quick), pairs of faults in thorough (n = 3: every pair sampled 1/8 per seed, n = 4, 5: 500 / 300 random pairs); non-trivial = every case (each has at least one adversarial message); distinct = distinct case line",
 		Gen:  gen,
 		Exec: exec,
 	})
@@ -41,6 +41,9 @@ func exec(line string) (res h.Result) {
 	w := strings.Fields(line)
 	if w[0] == "hist" {
 		return execHist(w)
+	}
+	if w[0] == "libadv" {
+		return execLib(w)
 	}
 	if w[0] != "adv" {
 		panic("bad case line")
@@ -436,10 +439,15 @@ func gen(tier string, rng *h.Rng, emit func(string)) {
 	// the history cases come first and draw from their own stream (the stream of the adv cases is what it was)
 	fork := *rng
 	only := os.Getenv("VERIF_C05_ONLY") // development knob: "hist" / "adv" runs one family only
-	if only != "adv" {
+	if only != "adv" && only != "lib" {
 		genHist(tier, h.NewRng(fork.U64()^0xC05D), emit)
 	}
-	if only == "hist" {
+	if only != "adv" && only != "hist" {
+		// library level: its own stream too
+		fork2 := *rng
+		genLib(tier, h.NewRng(fork2.U64()^0x11BADF), emit)
+	}
+	if only == "hist" || only == "lib" {
 		return
 	}
 	thorough := tier == "thorough"
